@@ -7,7 +7,7 @@ import argparse
 PLAN = {
     # property: (machine module, runs quick, runs thorough, cfg)
     'C09': ('machines.hist', 400, 20000, {}),
-    'C11': ('machines.peer', 200, 20000, {}),
+    'C11': ('machines.peer', 600, 20000, {}),
     'C17': ('machines.multi', 800, 40000, {}),
     'C19': ('machines.det', 400, 30000, {}),
     'C13': ('machines.part', 3000, 200000, {}),
